@@ -205,6 +205,7 @@ class World:
                     if exp:
                         d = next(k for k, a in enumerate(ch) if a is m) + 1
                         require(n.get_depth(relative_to=m) == d, "get_depth-relative", f"step {self.step_no}")
+                        require(n.get_depth(m, False) == d, "get_depth-relative", f"step {self.step_no} (check_ancestor=False)")
                 for cname in ("LInner", "LReq"):
                     exp_a = next((a for a in ch if L.is_subclass(type(a).__name__, cname)), None)
                     require(n.get_first_ancestor_of_type(L.cls(cname)) is exp_a, "get_first_ancestor_of_type",
